@@ -14,6 +14,7 @@
 package main
 
 import (
+	"time"
 	"encoding/json"
 
 	"fmt"
@@ -105,6 +106,46 @@ func corpus(thorough bool) [][]bqlm.Clause {
 	// time bounds taken from a binding of an earlier clause: the planner derives the
 	// lookup options of every row from shared options
 	out = append(out, bqlm.BoundAliasShapes()...)
+	// OPTIONAL second clause (relations: renaming, chanSize, processors, repetition, partition)
+	for i := range rc {
+		for j := range rc {
+			if !thorough && (i+j)%3 != 0 {
+				continue
+			}
+			for _, named := range bqlm.Namings([]bqlm.Clause{rc[i], rc[j]}) {
+				if len(named[0].Bindings()) == 0 {
+					continue
+				}
+				named[1].Optional = true
+				out = append(out, named)
+			}
+		}
+	}
+	// aggregate form (GROUP BY the first binding, count and count distinct of the second): same relations
+	for bi, b := range bqlm.BaseClauses() {
+		if !thorough && bi%4 != 0 {
+			continue
+		}
+		for _, named := range bqlm.Namings([]bqlm.Clause{b}) {
+			if len(named[0].Bindings()) >= 2 {
+				named[0].Tag = "agg"
+				out = append(out, named)
+			}
+		}
+	}
+	for i := range rc {
+		for j := range rc {
+			if !thorough && (i+j)%5 != 0 {
+				continue
+			}
+			for _, named := range bqlm.Namings([]bqlm.Clause{rc[i], rc[j]}) {
+				if len(bqlm.AllBindings(named)) >= 2 {
+					named[0].Tag = "agg"
+					out = append(out, named)
+				}
+			}
+		}
+	}
 	if thorough {
 		// three-clause chains over a smaller vocabulary
 		var small []bqlm.Clause
@@ -168,7 +209,14 @@ func run(st storage.Store, q *bqlm.Query, chanSize int) outcome {
 	return outcome{rows: res.Sorted(), seq: res.Rows}
 }
 
+func isAgg(cs []bqlm.Clause) bool { return len(cs) > 0 && cs[0].Tag == "agg" }
+
 func query(cs []bqlm.Clause, from []string) *bqlm.Query {
+	if isAgg(cs) {
+		bs := bqlm.AllBindings(cs) // order of first appearance: stable under renaming
+		return &bqlm.Query{From: from, Where: cs, GroupBy: []string{bs[0]}, Proj: []bqlm.Proj{{Binding: bs[0]},
+			{Binding: bs[1], Op: "count", Alias: "?cnt"}, {Binding: bs[1], Op: "count", Distinct: true, Alias: "?dst"}}}
+	}
 	return &bqlm.Query{From: from, Where: cs, Proj: bqlm.SelectAll(cs)}
 }
 
@@ -363,7 +411,7 @@ func (c *ctx) relationsOnStore(ci int, cs []bqlm.Clause, gi int, data []*triple.
 		}
 	}
 	// (f) every permutation of the clauses (no OPTIONAL)
-	if len(cs) > 1 && !hasOptional(cs) && !usesBoundBindings(cs) {
+	if len(cs) > 1 && !hasOptional(cs) && !usesBoundBindings(cs) && !isAgg(cs) {
 		perm(len(cs), func(p []int) {
 			identity := true
 			for i, x := range p {
@@ -449,6 +497,7 @@ func main() {
 		return true, string(out)
 	})
 	r.MaybeReplay()
+	t0 := time.Now()
 	cps := corpus(r.Thorough())
 	gs := graphs()
 	c := &ctx{r: r}
@@ -472,6 +521,8 @@ func main() {
 			bases[gi][ci] = run(stores[gi], query(cps[ci], []string{"?g"}), 0)
 		}
 	})
+	phase := func(n string) { fmt.Fprintf(os.Stderr, "c14 phase %s at %.0fs\n", n, time.Since(t0).Seconds()) }
+	phase("store-relations done")
 	// (c) processor counts: the planner sizes its fan-out by runtime.GOMAXPROCS(0)
 	prev := runtime.GOMAXPROCS(0)
 	for _, p := range []int{1, 2, 4} {
@@ -489,6 +540,7 @@ func main() {
 		})
 	}
 	runtime.GOMAXPROCS(prev)
+	phase("procs done")
 	// (e) every assignment of the triples to 3 FROM graphs
 	var parts int64
 	for gi, g := range gs {
@@ -516,8 +568,8 @@ func main() {
 				if base.failed {
 					continue
 				}
-				if !r.Thorough() && (len(cs) > 1 || len(gg) > 5) && code%27 != 0 {
-					continue // quick: multi-clause queries on every 27th partition (all in thorough)
+				if !r.Thorough() && (len(cs) > 1 || len(gg) > 5) && code%54 != 0 {
+					continue // quick: multi-clause queries on every 54th partition (all in thorough)
 				}
 				q := query(cs, []string{"?g1", "?g2", "?g3"})
 				o := run(st, q, 0)
@@ -529,7 +581,8 @@ func main() {
 		})
 	}
 	r.Set("partitions", int(parts))
-	// (g) adding a triple never removes a row (no OPTIONAL in the corpus)
+	phase("partitions done")
+	// (g) adding a triple never removes a row
 	ex := extras()
 	type sup struct{ gi, ei int }
 	var sups []sup
@@ -547,8 +600,8 @@ func main() {
 		st := bqlm.NewStore(map[string][]*triple.Triple{"?g": data})
 		for ci, cs := range cps {
 			base := bases[s.gi][ci]
-			if base.failed {
-				continue
+			if base.failed || hasOptional(cs) || isAgg(cs) {
+				continue // the superset relation is stated for queries without OPTIONAL and aggregates
 			}
 			q := query(cs, []string{"?g"})
 			o := run(st, q, 0)
@@ -562,6 +615,7 @@ func main() {
 		}
 	})
 	r.Set("supersets", len(sups))
+	phase("supersets done")
 	// total ORDER BY: same sequence every time, under every chanSize
 	var seqs int64
 	common.ParallelFor(len(cps), func(ci int) {
@@ -593,6 +647,7 @@ func main() {
 		}
 	})
 	r.Set("ordered_sequences_compared", int(seqs))
+	phase("sequences done")
 
 	// schedule part (vsched engine), if built: merge its counters
 	schedNote := runSchedulePart(r)
